@@ -464,8 +464,8 @@ func matchPOSIXClass(name string, ch byte, flags int) (matched, valid bool) {
 	case "punct":
 		return isASCIIPunct(ch), true
 	case "space":
-		return ch == ' ' || ch == '\t' || ch == '\n' ||
-			ch == '\v' || ch == '\f' || ch == '\r', true
+		// sane-ctype.h's isspace: vertical tab and form feed are not spaces.
+		return ch == ' ' || ch == '\t' || ch == '\n' || ch == '\r', true
 	case "upper":
 		if ch >= 'A' && ch <= 'Z' {
 			return true, true
